@@ -218,7 +218,7 @@ def random_region(rnd):
         visual['linewidth'] = rnd.randint(1, 4)
     kind = rnd.choice(['Circle', 'Ellipse', 'Rectangle', 'CircleAnnulus', 'EllipseAnnulus', 'RectangleAnnulus', 'Polygon', 'Line', 'Point', 'Text'])
     if kind not in ('Text',) and rnd.random() < 0.3:
-        meta['text'] = rnd.choice(['a label', 'x;y', 'k=v # z', '123', 'semi; colon', '', "FOV 5'", '2" beam', '"quoted"', "'tis"])
+        meta['text'] = rnd.choice(['a label', 'x;y', 'k=v # z', '123', 'semi; colon', '', "FOV 5'", '2" beam', '"quoted"', "'tis", ';lead', '; note', ';', 'end;', '#first', '=x'])
     K = getattr(R, kind + ('PixelRegion' if pix else 'SkyRegion'))
     kw = {'meta': meta, 'visual': visual}
     if kind == 'Circle':
@@ -240,7 +240,7 @@ def random_region(rnd):
         return K(c(), c(), **kw)
     if kind == 'Point':
         return K(c(), **kw)
-    return K(c(), rnd.choice(['some text', 'x;y', '42', 'with "quote', '"both"', "5' x 3\"", '']), **kw)
+    return K(c(), rnd.choice(['some text', 'x;y', '42', 'with "quote', '"both"', "5' x 3\"", '', ';lead', ';', 'tail;', '# hash first']), **kw)
 
 
 def numbers(r):
